@@ -1,6 +1,7 @@
 mod engine;
 mod gen;
 mod hooks;
+mod net;
 mod props;
 mod refsm;
 mod scenario;
@@ -35,6 +36,9 @@ fn arg_val(args: &[String], key: &str) -> Option<String> {
 }
 
 fn main() {
+    // rocket reads its configuration from ROCKET_* (C20): no console logging from the simulated server
+    std::env::set_var("ROCKET_LOG_LEVEL", "off");
+    std::env::set_var("ROCKET_CLI_COLORS", "false");
     let args: Vec<String> = std::env::args().collect();
     if args.len() < 2 {
         eprintln!("usage: rfsm-sim check <ID> <quick|thorough> | worker ... | replay <file> | selftest-determinism <ID> | show <ID> <index> [sched]");
@@ -196,6 +200,13 @@ fn cmd_check(args: &[String]) -> i32 {
         println!("  rule={} signature={} :: {}", v.rule, v.signature, v.msg);
     }
 
+    let mut real_code = vec!["scxml_reader", "fsm (interpreter)", "executable_content", "datamodel (null, rfsm-expression incl. expression_engine, ecmascript/boa)", "ScxmlEventIOProcessor", "FsmExecutor", "serializer reader/writer"];
+    let mut stubs = vec!["OS scheduler + std::sync + std::thread -> shuttle (SeqCst)", "timer crate -> simulated timer wheel on a simulated clock", "std RandomState of HashMap/HashSet -> SipHasher seeded per run (collections seam)"];
+    if id == "C20" {
+        real_code.push("BasicHTTPEventIOProcessor (new, rocket_receive_event, send, get_location, shutdown), FsmExecutor::new_with_io_processor");
+        real_code.push("rocket 0.5 routing, form decoding and responder (in-process dispatch of rocket::local)");
+        stubs.push("rocket's TCP listener and the ureq client -> simulated network (http seam): form_urlencoded serializer as in ureq::send_form, fault plan per request");
+    }
     let evidence = json!({
         "property_id": id,
         "tier": tier.name(),
@@ -220,13 +231,13 @@ fn cmd_check(args: &[String]) -> i32 {
             "max_steps_in_a_run": steps_max,
             "distinct_interleavings": all_sigs.len(),
             "interleaving_measure": "distinct (scenario hash, hash of the task chosen at every context switch) pairs",
-            "fault_kinds_fired": maps.get("fault_kinds"),
+            "fault_kinds_fired": probes.iter().filter(|(k, _)| k.contains("fault")).map(|(k, v)| (k.clone(), *v)).collect::<BTreeMap<String, u64>>(),
             "probes": probes,
             "lock_order_edges_observed": maps.get("lock_edges"),
             "other_rules_seen": maps.get("other_rules"),
             "known_findings_seen": known,
-            "real_code": ["scxml_reader", "fsm (interpreter)", "executable_content", "datamodel (null, rfsm-expression incl. expression_engine, ecmascript/boa)", "ScxmlEventIOProcessor", "FsmExecutor", "serializer reader/writer"],
-            "stubs": ["OS scheduler + std::sync + std::thread -> shuttle (SeqCst)", "timer crate -> simulated timer wheel on a simulated clock", "OS randomness for HashMap keys -> seeded getrandom shim"],
+            "real_code": real_code,
+            "stubs": stubs,
             "exhaustive": false
         },
         "assumptions": prop.assumptions(),
